@@ -130,6 +130,37 @@ pub(crate) fn yield_spin(label: &'static str) {
 }
 
 // ---------------------------------------------------------------------------
+// Tuning constants of the library, for oracles that speak about "one batch", "the
+// flush point" or "the size of the write log" (so that they follow the code).
+// ---------------------------------------------------------------------------
+
+pub struct Constants {
+    pub unsync_eviction_batch: usize,
+    pub sync_eviction_batch: usize,
+    pub read_log_flush_point: usize,
+    pub write_log_flush_point: usize,
+    pub read_log_size: usize,
+    pub write_log_size: usize,
+    pub periodical_sync_interval_millis: u64,
+    pub max_sync_repeats: usize,
+}
+
+#[cfg(feature = "sync")]
+pub fn constants() -> Constants {
+    use crate::common::concurrent::constants as c;
+    Constants {
+        unsync_eviction_batch: crate::unsync::VERIF_EVICTION_BATCH_SIZE,
+        sync_eviction_batch: crate::sync::VERIF_EVICTION_BATCH_SIZE,
+        read_log_flush_point: c::READ_LOG_FLUSH_POINT,
+        write_log_flush_point: c::WRITE_LOG_FLUSH_POINT,
+        read_log_size: c::READ_LOG_SIZE,
+        write_log_size: c::WRITE_LOG_SIZE,
+        periodical_sync_interval_millis: c::PERIODICAL_SYNC_INTERVAL_MILLIS,
+        max_sync_repeats: c::MAX_SYNC_REPEATS,
+    }
+}
+
+// ---------------------------------------------------------------------------
 // DashMap shard amount (0 = library default, which depends on the CPU count)
 // ---------------------------------------------------------------------------
 
